@@ -118,6 +118,7 @@ def build(verbose=False) -> tuple[bool, str]:
         reflect.write_eigenvalues()
         reflect.write_helpers()
         reflect.write_select()
+        reflect.write_normalize()
         bad = scan_forbidden()
         if bad:
             return False, "forbidden constructs: " + "; ".join(bad)
